@@ -16,6 +16,7 @@ from .. import core, findlib as fl, gen_find_c02 as g
 
 ATOL = 0.05
 TWO_IMAGES_TAG = "supercell-two-images-one-group"
+ILL_HINT_TAG = "hint-ill-conditioned-orientation-point"
 ATOLS = [0.05, 0.05, 0.05, 0.05, 0.001, 0.01, 0.2]
 RULE = ("base structures as in C02 (validated planted copies, per-atom perturbation <= atol/16; atol/40 for the hint runs); "
         "atol drawn from {0.001, 0.01, 0.05, 0.2} per base structure; patterns incl. CH2FCl-/CH3F-like ones with symmetry-"
@@ -23,9 +24,11 @@ RULE = ("base structures as in C02 (validated planted copies, per-atom perturbat
         "cells incl. 1, 2, 3 negative diagonal entries (alone or mixed with off-diagonal entries; every kind in a dedicated "
         "stream with the three half turns); relations: the whole crystal (cell + atoms) turned rigidly (half turns about the "
         "axes, quarter turns, arbitrary rational rotations); plain call (return_positions_and_quats=False); shift by a random vector (|components| <= 2 cell lengths) + fractional wrap; random atom permutation (a freshly built object, and the SAME Atoms object permuted in place between two searches); "
-        "pattern moved by a random rational rotation + translation; ALL hint triples (each entry None or an index) of the "
-        "patterns with <= 4 atoms whose given axis points are distinct and whose given orientation point is >= 0.3 A off "
-        "the (resolved) axis; 3 other RNG seeds; replication <= 2x1x1 (quick) / <= 2x2x2 (thorough) when every cell width exceeds 2*(diameter+2*atol) (below that two images of one atom can both fit and the relation is mathematically false). Thorough also: "
+        "pattern moved by a random rational rotation + translation; ALL hint triples (each entry None or an index; spelled "
+        "as int / negative int / numpy int) of the patterns with <= 4 atoms whose given axis points are distinct and whose "
+        "given orientation point is >= 0.05 A off the (resolved) axis, copies perturbed atol/8 (lever ratios ro<=3, ra<=2.5) "
+        "or atol/40 (ro<=15, ra<=6); KNOWN-FINDING stream of ill-conditioned orientation hints (ro>=5, copies displaced "
+        "0.1-0.25 atol); 3 other RNG seeds; replication <= 2x1x1 (quick) / <= 2x2x2 (thorough) when every cell width exceeds 2*(diameter+2*atol) (below that two images of one atom can both fit and the relation is mathematically false). Thorough also: "
         "docs/examples/uio66.cif + uio66-linker.cml (24 linkers) and tests/uio66/uio66-triclinic.lmpdat (6 linkers, "
         "atol 0.2): shift, permutation, pattern motion, reseed, 2x1x1. Separate small stream for the KNOWN FINDING (narrow "
         "cells with two fitting images of one atom: supercell along that cell vector, 3 quick / 20 thorough). Non-trivial = the base search reports at least "
@@ -81,8 +84,11 @@ def t_rotate(base, quat):
 
 def t_replicate(base, dims):
     s = fl.mk_structure(base["elems"], base["pos"], base["cell"])
+    # the replication factors in the public spellings: tuple / list / numpy array / numpy integers (by their sum)
+    spell = sum(dims) % 4
+    d = tuple(dims) if spell == 0 else list(dims) if spell == 1 else np.array(dims) if spell == 2 else tuple(np.int64(x) for x in dims)
     with core.quiet():
-        r = s.replicate(repldims=tuple(dims))
+        r = s.replicate(repldims=d)
     return dict(base, elems=[str(e) for e in r.elements], pos=np.array(r.positions, dtype=float).tolist(),
                 cell=np.array(r.cell, dtype=float).tolist())
 
@@ -155,7 +161,9 @@ def relation(base, rel, param, base_keys=None):
     elif rel == "pattern":
         tb = t_pattern(base, param[0], param[1])
     elif rel == "hints":
-        tb, hints = base, tuple(param)
+        tb, hints = base, tuple(param)                       # python ints, possibly negative (python convention)
+    elif rel == "hints-np":
+        tb, hints = base, tuple(None if h is None else np.int64(h) for h in param)
     elif rel == "seed":
         tb, seed = base, int(param)
     elif rel == "plain":               # called with return_positions_and_quats=False (only index tuples returned)
@@ -188,6 +196,19 @@ def relation(base, rel, param, base_keys=None):
     return None, tb, res
 
 
+def hint_failure_tags(base, h, base_keys, res):
+    """A failure of the hint relation is attributed to the known finding C03-hint-ill-conditioned-orientation-point
+    (exactly its tag) only if it has that finding's signature: an orientation point was hinted, its lever ratio
+    ro = (largest distance of a pattern atom from the axis) / (distance of the hinted atom from the axis) is at least
+    ILL_RO, the un-hinted search reports groups, and the hinted search merely LOSES some of them (reports a subset,
+    raises nothing).  Any other dependence on the hints stays an untagged violation."""
+    ra, ro, given_o = g.hint_levers(base["pattern"]["pos"], h)
+    got = None if res is None else keys(res)
+    if given_o and ro >= g.ILL_RO and base_keys and got is not None and set(got) < set(base_keys) and len(set(got)) == len(got):
+        return [ILL_HINT_TAG]
+    return ["rel:hints", "ro:%.2f" % ro, "ra:%.2f" % ra]
+
+
 def inp_of(base, rel, param):
     return {"op": "find-invariance", "relation": rel, "param": param, "base": base}
 
@@ -212,7 +233,7 @@ def tie(ctx, pairs):
     ops = []
     for inp, tb, hints, res in pairs:
         case = {"elems": tb["elems"], "pos": tb["pos"], "cell": tb["cell"], "pattern": tb["pattern"]}
-        ops.append(fl.find_op(case, tb["atol"], hints, res["hook"]))
+        ops.append(g.model_op(case, tb["atol"], hints, res["hook"]))
     models = ctx.lean.run(ops) if ops else []
     for (inp, tb, hints, res), op, m in zip(pairs, ops, models):
         iv, mv = fl.impl_view(res), fl.model_view(m)
@@ -236,7 +257,8 @@ def tie_resolve(ctx, items):
                     "hints": list(hints), "axis": [None, None, None], "oracle": [], "choose": []})
     models = ctx.lean.run(ops) if ops else []
     for (pat, hints, axis), m in zip(items, models):
-        want = [int(axis[0]), int(axis[1]), None if axis[2] is None else int(axis[2])]
+        npat = len(pat["pos"])                       # the code keeps a negative hint as it was given: same atom mod n
+        want = [int(axis[0]) % npat, int(axis[1]) % npat, None if axis[2] is None else int(axis[2]) % npat]
         got = list(m.get("resolved", []))
         if hints[2] is None and want[2] is not None and not opoint_unique(pat["pos"], want[0], want[1]):
             got, want = got[:2], want[:2]      # several points equally far from the axis: float argmax is not determined
@@ -274,7 +296,7 @@ def run(ctx, oracle_only=False, scale=1):
     pairs, resolve_items = [], []
     n_tie = 0 if oracle_only else ctx.n(160, 500)
     # ---- (a) (b) (c) (e) (f) on random validated structures
-    for _ in range(ctx.n(180, 1500) * scale):
+    for _ in range(ctx.n(150, 1500) * scale):
         atol = rng.choice(ATOLS)
         case = gen_base(rng, atol=atol)
         if case is None:
@@ -303,8 +325,9 @@ def run(ctx, oracle_only=False, scale=1):
         if rng.random() < 0.5:
             check_rel(ctx, base, "plain", rng.randrange(3, 10 ** 6), bk, pairs, False)
         if widths_ok(base) and len(base["elems"]) <= 30:
-            dims = rng.choice([(2, 1, 1), (1, 2, 1), (1, 1, 2)] if ctx.tier == "quick" and scale == 1 else
-                              [(2, 1, 1), (1, 2, 1), (1, 1, 2), (2, 2, 1), (1, 2, 2), (2, 1, 2), (2, 2, 2)])
+            dims = rng.choice([(2, 1, 1), (1, 2, 1), (1, 1, 2), (3, 1, 1), (1, 1, 3)] if ctx.tier == "quick" and scale == 1 else
+                              [(2, 1, 1), (1, 2, 1), (1, 1, 2), (2, 2, 1), (1, 2, 2), (2, 1, 2), (2, 2, 2), (3, 1, 1),
+                               (1, 3, 2), (3, 3, 3) if len(base["elems"]) <= 12 else (3, 2, 1)])
             check_rel(ctx, base, "replicate", list(dims), bk, pairs, len(pairs) < n_tie and rng.random() < 0.15)
     # ---- patterns whose first atoms are symmetry-related (only some orderings rotatable), >= 2 copies: the key set must
     # not depend on the listing order of the atoms (copy by copy vs. slot-major vs. random)
@@ -399,36 +422,78 @@ def run(ctx, oracle_only=False, scale=1):
                 d2 = [1, 1, 1]
                 d2[ax] = 2
                 check_rel(ctx, base, "replicate", d2, bk, pairs, len(pairs) < n_tie and rng.random() < 0.3)
-    # ---- (d) hints: every valid triple of every pattern with <= 4 atoms
+    # ---- (d) hints: every valid triple of every pattern with <= 4 atoms (given axis points distinct, given orientation
+    # point >= 0.05 A off the axis), in the spellings int / negative int / numpy int.  The copies are perturbed as far as
+    # the conditioning of the triple allows: atol/8 for well-conditioned triples (lever ratios ro <= 3, ra <= 2.5),
+    # atol/40 for moderate ones (ro <= 15, ra <= 6); triples beyond that belong to the known finding below.
     for rep in range(ctx.n(1, 5) * scale):
         for pname in HINT_PATTERNS:
             hatol = rng.choice(ATOLS)
-            case = gen_base(rng, pname=pname, perturb_div=40.0, tight=False, atol=hatol)
-            if case is None:
-                ctx.count("generator:rejected")
-                continue
-            base = base_of(case, hatol)
-            bres = real_search(base, seed=1)
-            bk = keys(bres)
-            if bk is None:
-                ctx.fail("the search raised %s" % bres.get("err"), inp_of(base, "seed", 1), tags=["base"])
-                continue
-            hs = valid_hints(base["pattern"]["pos"])
-            ctx.count("hint-triples", len(hs))
-            for h in hs:
-                bad, tb, res = relation(base, "hints", list(h), bk)
-                inp = inp_of(base, "hints", list(h))
-                ctx.case(inp, nontrivial=bool(bk) and h != (None, None, None))
-                ctx.count("rel:hints")
-                if 0 in h:
-                    ctx.count("hints-with-index-0")
-                if bad:
-                    ctx.fail(bad, inp, required="same key set for every valid hint triple", tags=["rel:hints"])
+            ppos = [[float(x) for x in q] for q in fl.pattern_json(pname)["pos"]]
+            classes = {8.0: [], 40.0: []}
+            for h in g.valid_hints(ppos, min_off=0.05):
+                ra, ro, _ = g.hint_levers(ppos, h)
+                if ro <= 3 and ra <= 2.5:
+                    classes[8.0].append(h)
+                elif ro <= 15 and ra <= 6:
+                    classes[40.0].append(h)
+                else:
+                    ctx.count("hint-triples:left-to-the-known-finding-stream")
+            for pdiv, hs in classes.items():
+                if not hs:
                     continue
-                if not oracle_only and res["hook"].find is not None and rep == 0:
-                    resolve_items.append((base["pattern"], h, res["hook"].find["axis"]))
-                    if (h.count(None) >= 1 and 0 in h and rng.random() < 0.2) or rng.random() < 0.02:
-                        pairs.append((inp, tb, h, res))
+                case = gen_base(rng, pname=pname, perturb_div=pdiv, tight=False, atol=hatol)
+                if case is None:
+                    ctx.count("generator:rejected")
+                    continue
+                base = base_of(case, hatol)
+                bres = real_search(base, seed=1)
+                bk = keys(bres)
+                if bk is None:
+                    ctx.fail("the search raised %s" % bres.get("err"), inp_of(base, "seed", 1), tags=["base"])
+                    continue
+                ctx.count("hint-triples:perturbation-atol/%g" % pdiv, len(hs))
+                npat = len(ppos)
+                for h in hs:
+                    hs_spelled, spelling = g.spell_hints(rng, h, npat)
+                    rel = "hints-np" if spelling == "numpy" else "hints"
+                    param = [None if x is None else int(x) for x in hs_spelled]
+                    bad, tb, res = relation(base, rel, param, bk)
+                    inp = inp_of(base, rel, param)
+                    ctx.case(inp, nontrivial=bool(bk) and h != (None, None, None))
+                    ctx.count("rel:hints")
+                    ctx.count("hint-spelling:" + spelling)
+                    if 0 in h:
+                        ctx.count("hints-with-index-0")
+                    if bad:
+                        ctx.fail(bad, inp, required="same key set for every valid hint triple",
+                                 tags=hint_failure_tags(base, h, bk, res))
+                        continue
+                    if not oracle_only and res["hook"].find is not None and rep == 0:
+                        resolve_items.append((base["pattern"], h, res["hook"].find["axis"]))
+                        if (h.count(None) >= 1 and 0 in h and rng.random() < 0.2) or rng.random() < 0.02:
+                            pairs.append((inp, tb, h, res))
+    # ---- known finding C03-hint-ill-conditioned-orientation-point: the hinted orientation atom lies close to the axis
+    # compared with the lever arm of the other atoms (ro >= ILL_RO); copies displaced by 0.1-0.25 atol per atom are found
+    # without the hint and can be lost with it.  First the structure that established the finding, then generated ones.
+    fc = g.FINDING_HINT_CASE
+    ill = [(dict(fc), fc["hints"])]
+    while len(ill) < 1 + ctx.n(6, 40) * scale:
+        r = g.ill_conditioned_hint_case(rng, atol=ATOL)
+        if r is not None:
+            ill.append(r)
+    for case, h in ill:
+        base = base_of(case)
+        bk = keys(real_search(base, seed=1))
+        inp = inp_of(base, "hints", list(h))
+        ctx.case(inp, nontrivial=True)
+        ctx.count("stream:ill-conditioned-orientation-hint")
+        if bk is None:
+            ctx.fail("the search raised", inp, tags=["base"])
+            continue
+        bad, tb, res = relation(base, "hints", list(h), bk)
+        if bad:
+            ctx.fail(bad, inp, required="same key set for every valid hint triple", tags=hint_failure_tags(base, h, bk, res))
     if ctx.tier == "quick" and scale == 1 and HINT_PATTERNS:
         ctx.notes.append("hint triples enumerated completely for one structure per pattern with <= 4 atoms")
     # ---- the repository's MOF files (oracle only)
